@@ -130,7 +130,7 @@ Qed.
 
 Lemma step_simL : forall fuel h os st o, RL (IS h os) st -> sim_goalL fuel h os st o.
 Proof.
-  intros fuel h os st o HR. destruct o as [i|i c|i c|i c|i c|i|i p|i f|i p|i n|i|i n|z n|z n|i j|m].
+  intros fuel h os st o HR. destruct o as [i|i c|i c|i c|i c|i|i p|i f|i p|i n|i|i n|z n|z n|i j|m|e].
   - apply simL_next; exact HR.
   - apply simL_take; exact HR.
   - apply simL_peek; exact HR.
@@ -146,6 +146,7 @@ Proof.
   - intros ist' ob Hi _. cbn in *. inversion Hi; subst. eexists. split; [reflexivity|exact HR].
   - intros ist' ob Hi _. cbn in *. inversion Hi; subst. eexists. split; [reflexivity|exact HR].
   - apply simL_appendobj; exact HR.
+  - intros ist' ob Hi _. cbn in *. inversion Hi; subst. eexists. split; [reflexivity|exact HR].
   - intros ist' ob Hi _. cbn in *. inversion Hi; subst. eexists. split; [reflexivity|exact HR].
 Qed.
 
